@@ -24,12 +24,17 @@ let hex_of_word (w : word) : string =
 
 let split_nonempty c s = List.filter (fun x -> x <> "") (String.split_on_char c s)
 
-let spec_of_string (t : string) : sspec =
+(* the kind letter may carry a modifier (w, n, u, x: which Go object carries the description;
+   the model has one kind of object per rule); the result is (description, modifier).
+   X:-:kk entries (a recovered panic before the observed runs) describe no searcher. *)
+let spec_of_string (t : string) : (sspec * char) option =
   match String.split_on_char ':' t with
-  | [k; body; bl] ->
+  | [k; body; bl] when String.length k >= 1 && String.length k <= 2 ->
     let blank = match word_of_hex bl with [b] -> b | _ -> failwith "blank" in
-    if k = "P" then SpecP (word_of_hex body, blank)
-    else if k = "A" then SpecA (word_of_hex body, blank)
+    let m = if String.length k = 2 then k.[1] else ' ' in
+    if k.[0] = 'P' then Some (SpecP (word_of_hex body, blank), m)
+    else if k.[0] = 'A' then Some (SpecA (word_of_hex body, blank), m)
+    else if k.[0] = 'X' then None
     else failwith ("searcher kind " ^ k)
   | _ -> failwith ("searcher " ^ t)
 
@@ -50,11 +55,11 @@ let proj_state (x : searcher) : string =
 
 (* raw counts entries; "-" for anagrams longer than 12, where Go's sort.Slice leaves the
    insertion sort and the entry layout is not modelled *)
-let strict_state (x : searcher) : string =
+let strict_state (m : char) (x : searcher) : string =
   match x with
   | SPattern p -> "p"
   | SAnagram a ->
-    if int_of_z a.as_target > 12 then "-" else
+    if int_of_z a.as_target > 12 || m = 'u' || m = 'x' then "-" else
       "a" ^ String.concat "." (List.map (fun (l, c) -> Printf.sprintf "%02x:%d" (int_of_n l) (int_of_z c)) a.as_counts)
 
 let str_solns (r : (word * z) list) : string =
@@ -72,7 +77,8 @@ let () =
           String.sub header (j + 1) (String.length header - j - 1)
         else header in
       let toks = split_nonempty ' ' (String.sub line (i + 1) (String.length line - i - 1)) in
-      let specs = List.map spec_of_string (split_nonempty ',' header) in
+      let sm = List.filter_map spec_of_string (split_nonempty ',' header) in
+      let specs = List.map fst sm and mods = List.map snd sm in
       let words = List.map word_of_hex toks in
       (match new_dawg words with
        | Panic -> print_endline "panic"
@@ -91,7 +97,7 @@ let () =
           | Panic -> print_endline "panic"
           | NoFuel -> print_endline "nofuel"
           | Ok xs0 ->
-            let c0 = String.concat "|" (List.map strict_state xs0) in
+            let c0 = String.concat "|" (List.map2 strict_state mods xs0) in
             (match search_c fuel s root xs0 with
              | Panic -> print_endline "panic"
              | NoFuel -> print_endline "nofuel"
@@ -101,7 +107,7 @@ let () =
                 | NoFuel -> print_endline "nofuel"
                 | Ok (r2, xs2) ->
                   let st xs = String.concat "|" (List.map proj_state xs) in
-                  let sst xs = String.concat "|" (List.map strict_state xs) in
+                  let sst xs = String.concat "|" (List.map2 strict_state mods xs) in
                   Printf.printf "s0=%s r1=%s s1=%s r2=%s s2=%s ## c0=%s c1=%s c2=%s\n"
                     (st xs0) (str_solns r1) (st xs1) (str_solns r2) (st xs2) c0 (sst xs1) (sst xs2))))))
     done
